@@ -5,9 +5,11 @@ import (
 	"bytes"
 	"encoding/json"
 	"fmt"
+	structform "github.com/elastic/go-structform"
 	"os"
 	"path/filepath"
 	"sync"
+	"verif/harness/hook"
 
 	"verif/harness/codec"
 	"verif/harness/gen"
@@ -73,6 +75,32 @@ func parseBoth(c *run.C, cd *codec.Codec, doc []byte, r *gen.Rand) (m *mon.Monit
 			return nil, nil, false
 		}
 		c.Observe("decoder_runs_equal_to_parse", 1)
+	}
+	// ONE long-lived parser per codec and worker process (methods Parse /
+	// ParseString / Write alternating): an accepted document must be read the
+	// same way whatever complete documents the instance has read before
+	if whole.err == nil {
+		lm := mon.NewMonitor()
+		var lerr error
+		how := ""
+		okl := c.Guard(cd.Name+".long-lived-parser", func() { how, lerr = parseLongLived(cd, doc, lm, r) })
+		if !okl {
+			longLived[cd.Name] = nil
+			return nil, nil, false
+		}
+		if lerr != nil {
+			longLived[cd.Name] = nil
+			c.Violationf("verdict", cd.Name+":long-lived-verdict", "%s: a new parser accepts the document, a parser that has read other complete documents before returns %v (%s)\ndoc=%s\nprevious document=%s", cd.Name, lerr, how, hexs(doc), hexs(longLivedPrev[cd.Name]))
+			return nil, nil, false
+		}
+		a, b := normRefs(whole.events), normRefs(lm.Events)
+		if a.String() != b.String() {
+			longLived[cd.Name] = nil
+			c.Violationf("mismatch", cd.Name+":long-lived-events", "%s: a parser that has read other complete documents before reports other events than a new one (%s)\ndoc=%s\nprevious document=%s\nnew       =%s\nlong-lived=%s", cd.Name, how, hexs(doc), hexs(longLivedPrev[cd.Name]), a, b)
+			return nil, nil, false
+		}
+		longLivedPrev[cd.Name] = append([]byte{}, doc...)
+		c.Observe("long_lived_parser_runs_equal", 1)
 	}
 	mm := mon.NewMonitor()
 	for _, e := range whole.events {
@@ -674,4 +702,44 @@ func init() {
 			{Name: "directed", N: tierN(6000, 60000), Case: c06Directed, Require: []string{"values_equal_to_reference"}},
 		},
 	})
+}
+
+// long-lived parsers (see parseBoth)
+type llParser struct {
+	p    codec.Parser
+	sink *switchSink
+}
+
+var (
+	longLived     = map[string]*llParser{}
+	longLivedPrev = map[string][]byte{}
+)
+
+func parseLongLived(cd *codec.Codec, doc []byte, m *mon.Monitor, r *gen.Rand) (string, error) {
+	ll := longLived[cd.Name]
+	if ll == nil {
+		ll = &llParser{sink: &switchSink{}}
+		ll.p = cd.NewParser(ll.sink)
+		longLived[cd.Name] = ll
+		longLivedPrev[cd.Name] = nil
+	}
+	ll.sink.ExtVisitor = structform.EnsureExtVisitor(m.WithRefs())
+	switch r.Intn(3) {
+	case 0:
+		return "Parse", ll.p.Parse(exactCopy(doc))
+	case 1:
+		return "ParseString", ll.p.ParseString(string(doc))
+	default:
+		if !hook.Enabled {
+			return "Parse", ll.p.Parse(exactCopy(doc))
+		}
+		for _, ch := range mon.Chunks(doc, []int{r.Range(1, 9), r.Range(1, 40)}) {
+			mon.Progress++
+			if _, err := ll.p.Write(ch); err != nil {
+				return "Write", err
+			}
+		}
+		err, _ := hook.Finalize(ll.p)
+		return "Write+end", err
+	}
 }
